@@ -5,7 +5,7 @@ EXPLANATION = (
     "D1 MetadataEntry::to_filename / from_filename are mutually inverse tables over the 14 '+' files; "
     "D2 is_valid_pkgdir requires exactly +COMMENT,+CONTENTS,+DESC (files rejected first), Metadata::is_valid tests exactly comment/contents/desc, read_metadata stores each entry in the field of the same name; "
     "D3 PkgDB::next splits the directory name at the LAST '-' and stores prefix->pkgbase, suffix->pkgversion, whole->pkgname; "
-    "D4 iteration skeleton: invalid directories continue, a valid one returns one Some(Ok), Package::read_metadata joins its own path with to_filename(entry)")
+    "D4 iteration skeleton: invalid directories continue, a valid one returns one Some(Ok), Package::read_metadata joins its own path with to_filename(entry); is_valid as a loop over a literal table of (field, message) is walked element by element by the evaluator and judged like the if-chain")
 NOT_DECIDED = [
     "file-system enumeration semantics ('each once' is ReadDir's contract)",
     "content equality of fs::read_to_string",
